@@ -31,16 +31,28 @@ type cfg struct {
 	Kind  string // mif, tb, exempt, absent
 	M     int32
 	Burst int32
+	// Strat: "" = local strategy; "count" / "allocate" = the schema is globally limited (it carries global limits of
+	// Factor times the local ones and that strategy). These limiters run without a limiter server, where the local
+	// limits stay the ones in force, so the strategy must not matter for the bound.
+	Strat  string
+	Factor int32
 }
 
 func (c cfg) String() string {
 	switch c.Kind {
 	case "mif":
-		return fmt.Sprintf("mif(%d)", c.M)
+		return fmt.Sprintf("mif(%d)%s", c.M, c.strat())
 	case "tb":
-		return fmt.Sprintf("tb(%d,%d)", c.M, c.Burst)
+		return fmt.Sprintf("tb(%d,%d)%s", c.M, c.Burst, c.strat())
 	}
 	return c.Kind
+}
+
+func (c cfg) strat() string {
+	if c.Strat == "" {
+		return ""
+	}
+	return fmt.Sprintf("/%s*%d", c.Strat, c.Factor)
 }
 
 func (c cfg) schema(name string) proxyv1alpha1.FlowControlSchema {
@@ -53,7 +65,35 @@ func (c cfg) schema(name string) proxyv1alpha1.FlowControlSchema {
 	case "exempt":
 		s.Exempt = &proxyv1alpha1.ExemptFlowControlSchema{}
 	}
+	if c.Strat != "" {
+		s.Strategy = proxyv1alpha1.GlobalCountLimit
+		if c.Strat == "allocate" {
+			s.Strategy = proxyv1alpha1.GlobalAllocateLimit
+		}
+		switch c.Kind {
+		case "mif":
+			g := c.M
+			if g < 1 {
+				g = 1
+			}
+			s.GlobalMaxRequestsInflight = &proxyv1alpha1.MaxRequestsInflightFlowControlSchema{Max: g * c.Factor}
+		case "tb":
+			s.GlobalTokenBucket = &proxyv1alpha1.TokenBucketFlowControlSchema{QPS: c.M * c.Factor, Burst: c.Burst * c.Factor}
+		}
+	}
 	return s
+}
+
+func genStrat(t *rapid.T, label string, c cfg) cfg {
+	if c.Kind != "mif" && c.Kind != "tb" {
+		return c
+	}
+	c.Strat = rapid.SampledFrom([]string{"", "", "", "count", "allocate"}).Draw(t, label+".strategy")
+	c.Factor = 0
+	if c.Strat != "" {
+		c.Factor = int32(rapid.IntRange(1, 3).Draw(t, label+".globalFactor"))
+	}
+	return c
 }
 
 func genCfg(t *rapid.T, label string) cfg {
@@ -64,9 +104,9 @@ func genCfg(t *rapid.T, label string) cfg {
 		return cfg{Kind: "exempt"}
 	case 2, 3:
 		q := int32(rapid.IntRange(1000, 100000).Draw(t, label+".qps"))
-		return cfg{Kind: "tb", M: q, Burst: q}
+		return genStrat(t, label, cfg{Kind: "tb", M: q, Burst: q})
 	default:
-		return cfg{Kind: "mif", M: int32(rapid.IntRange(0, 4).Draw(t, label+".M"))} // 0 is a valid limit: it closes the schema
+		return genStrat(t, label, cfg{Kind: "mif", M: int32(rapid.IntRange(0, 4).Draw(t, label+".M"))}) // 0 is a valid limit: it closes the schema
 	}
 }
 
@@ -122,7 +162,7 @@ func (w *world) close() {
 
 // TestPropReconfigurationHistories: acquire / release / reconfigure histories against the ledger.
 func TestPropReconfigurationHistories(t *testing.T) {
-	sub := stats.NewSub("reconfiguration-histories", "rapid state machine on two real UpstreamLimiters x two schemas: ops acquire (GetOrDefault+TryAcquire), release (of any outstanding request, exactly once), reconfigure one schema (max-in-flight M in 0..4, token bucket, exempt, delete, re-add), drain (release everything, then probe); oracle: an admission under a max-in-flight schema happens only while fewer than M requests of the current incarnation are unfinished; after a drain exactly M probes are admitted and the (M+1)-th is refused; other schemas / the other cluster never influence the answer; non-trivial = a reconfiguration happens while requests are in flight and a later acquire is decided; distinct by FNV-64 of the op trace")
+	sub := stats.NewSub("reconfiguration-histories", "rapid state machine on two real UpstreamLimiters x two schemas: ops acquire (GetOrDefault+TryAcquire), release (of any outstanding request, exactly once), reconfigure one schema (max-in-flight M in 0..4, token bucket, exempt, delete, re-add; two schemas in five are globally limited - strategy count or allocate with global limits of 1-3 times the local ones - which changes nothing without a limiter server; one reconfiguration in four edits only that strategy), drain (release everything, then probe); oracle: an admission under a max-in-flight schema happens only while fewer than M requests of the current incarnation are unfinished; after a drain exactly M probes are admitted and the (M+1)-th is refused; other schemas / the other cluster never influence the answer; non-trivial = a reconfiguration happens while requests are in flight and a later acquire is decided; distinct by FNV-64 of the op trace")
 	stats.Check(t, stats.N(15000, 100000), func(t *rapid.T) {
 		w := &world{limiters: map[string]flowcontrols.UpstreamLimiter{}, cancel: map[string]context.CancelFunc{}, model: map[string]*schemaModel{}}
 		for _, c := range clusters {
@@ -202,7 +242,16 @@ func TestPropReconfigurationHistories(t *testing.T) {
 			"reconfigure": func(t *rapid.T) {
 				c, _, key := pickKey(t)
 				m := w.model[key]
-				n := genCfg(t, "new")
+				var n cfg
+				if (m.cur.Kind == "mif" || m.cur.Kind == "tb") && rapid.IntRange(0, 3).Draw(t, "onlyStrategy") == 0 {
+					// an edit of the limit strategy alone: same type, same limit, the limiter in force stays
+					n = genStrat(t, "new", m.cur)
+					if n != m.cur {
+						sub.Class("strategy-edit")
+					}
+				} else {
+					n = genCfg(t, "new")
+				}
 				if n.Kind == "mif" && m.cur.Kind != "mif" {
 					m.incarn++
 				}
